@@ -5,11 +5,13 @@ PROP = dict(
                "contents (2-5 replicas, up to 200 positions, shards 0/1/5, blocks 0/1/7, local bits in neighbouring blocks); the local fragment must end with exactly the per-bit majority "
                "(ties = set) of the block, bits of other blocks untouched, and the sets/clears returned for every remote must be exactly majority minus remote and remote minus majority; "
                "the repaired fragment's Blocks() must equal those of a fragment that simply holds the majority. "
-               "End to end: on real gossip clusters of 2 and 3 nodes with replicas = nodes and the anti-entropy timer off, generated bits are written to individual nodes only "
-               "(Field.SetBit on that node's holder with and without timestamps, API.ImportRoaring(remote=true) into chosen views), the contents of every (field, view, shard) on every node are read back, "
-               "Server.SyncData runs on one generated node and then on all; after each stage every node must hold the per-bit majority of what was read, in the same view, and report identical FragmentBlocks.",
+               "End to end: on real gossip clusters of 2 and 3 nodes with replicas = nodes and the anti-entropy timer off, each case creates an index with 3 of 7 field kinds (set with ranked / lru / no cache, time YMD, bool, mutex, int) "
+               "and runs TWO rounds. In each round generated writes reach individual nodes only, through every node-local write path: Field.SetBit/ClearBit/SetValue on the node's holder, API.Import (set and clear, 2 bits, with timestamps), API.ImportValue, "
+               "API.ImportRoaring(remote=true, set and clear, chosen views), and PQL Set/Clear/ClearRow/Store executed with QueryRequest.Remote. Then the contents of every (field, view, shard) on every node are read back, Server.SyncData runs on one generated node and "
+               "afterwards on all; after each stage every node must hold the per-bit majority of what was read, in the same view, and report identical FragmentBlocks. The second round starts from replicas whose block checksums are cached by the first round and "
+               "half of its writes reuse a (field, shard, row) of the first round, so stale-checksum defects of any write path make the second divergence invisible to the pass and are reported.",
     level_note="Exploration, not proof. Replica counts above 3 are covered at function level only (mergeBlock with up to 4 remotes); the cluster half uses 2 and 3 nodes, rows < 300 (blocks 0-2), 1-2 of shards {0,1,3}, "
-               "a set field and a YMD time field. The oracle of the cluster half is computed from contents read through API.FragmentBlockData before the sync, so it trusts that read path. "
+               "3 of 7 field kinds per case. While finding DX4 is open (a divergent bool / mutex / int fragment makes SyncData fail because ImportRoaring refuses these field types, so no completed pass exists) only the set and time kinds are generated (counted under excluded). Writes that return an error are counted, not judged: the oracle only uses what is read back. The oracle of the cluster half is computed from contents read through API.FragmentBlockData before the sync, so it trusts that read path. "
                "Cluster start-up failure over loopback gossip ends the unit as inconclusive (exit 2). The worktree carries tmp-fix(D11) (importRoaring did not invalidate cached block checksums; owned by another group): "
                "without it the remote replica keeps reporting a stale checksum after being repaired.",
     rule="function level: case = (replica contents of one block, shard, block id); cluster: case = (node count, shards, list of per-node writes, node that syncs). distinct = hash of that input. "
@@ -21,7 +23,7 @@ PROP = dict(
     units=[
         U("mergeexh", ".", "^TestVerifC11_MergeExhaustive$", 0, 0, sq=1, sth=1, rapid=False),
         U("mergernd", ".", "^TestVerifC11_MergeRandom$", 1500, 60000, sq=3, sth=8),
-        U("e2e2", "./server", "^TestVerifC11_E2E2$", 30, 800, sq=2, sth=4, timeout={"quick": 400, "thorough": 1500}),
-        U("e2e3", "./server", "^TestVerifC11_E2E3$", 36, 800, sq=2, sth=4, timeout={"quick": 400, "thorough": 1500}),
+        U("e2e2", "./server", "^TestVerifC11_E2E2$", 60, 800, sq=2, sth=4, timeout={"quick": 400, "thorough": 1500}),
+        U("e2e3", "./server", "^TestVerifC11_E2E3$", 72, 800, sq=2, sth=4, timeout={"quick": 400, "thorough": 1500}),
     ],
 )
